@@ -385,6 +385,9 @@ type c06Dir struct {
 	JSON bool
 	A, B cty.Value // two contents for variable k (marked whole)
 	Vars map[string]cty.Value
+	// Nest, when set, builds further variables around the (unmarked) content: a
+	// marked collection nested inside an unmarked one
+	Nest func(content cty.Value) map[string]cty.Value
 }
 
 var c06Directed = []c06Dir{
@@ -429,6 +432,24 @@ var c06Directed = []c06Dir{
 	{Name: "map-index-marked-number-key", Src: `mp[k]`, A: cty.NumberIntVal(1), B: cty.NumberIntVal(2), Vars: map[string]cty.Value{"mp": cty.MapVal(map[string]cty.Value{"1": cty.StringVal("x"), "2": cty.StringVal("y")})}},
 	{Name: "map-index-marked-bool-key", Src: `mp[k]`, A: cty.True, B: cty.False, Vars: map[string]cty.Value{"mp": cty.MapVal(map[string]cty.Value{"true": cty.StringVal("x"), "false": cty.StringVal("y")})}},
 	{Name: "index-in-template", Src: `"v=${lst[k]}"`, A: cty.StringVal("0"), B: cty.StringVal("1"), Vars: map[string]cty.Value{"lst": cty.ListVal([]cty.Value{cty.StringVal("x"), cty.StringVal("y")})}},
+	// every way of reaching into a collection that is marked as a whole
+	{Name: "map-attr-access", Src: `k.a`, A: cty.MapVal(map[string]cty.Value{"a": cty.StringVal("x")}), B: cty.MapVal(map[string]cty.Value{"a": cty.StringVal("y")})},
+	{Name: "map-attr-access-in-parens", Src: `(k).a`, A: cty.MapVal(map[string]cty.Value{"a": cty.StringVal("x")}), B: cty.MapVal(map[string]cty.Value{"a": cty.StringVal("y")})},
+	{Name: "object-attr-access", Src: `k.a`, A: cty.ObjectVal(map[string]cty.Value{"a": cty.StringVal("x")}), B: cty.ObjectVal(map[string]cty.Value{"a": cty.StringVal("y")})},
+	{Name: "map-index-access", Src: `k["a"]`, A: cty.MapVal(map[string]cty.Value{"a": cty.StringVal("x")}), B: cty.MapVal(map[string]cty.Value{"a": cty.StringVal("y")})},
+	{Name: "nested-marked-map-attr-access", Src: `objs[0].a`, A: cty.StringVal("x"), B: cty.StringVal("y"), Nest: func(v cty.Value) map[string]cty.Value {
+		return map[string]cty.Value{"objs": cty.TupleVal([]cty.Value{cty.MapVal(map[string]cty.Value{"a": v}).Mark(secretMark)})}
+	}},
+	{Name: "map-attr-splat", Src: `ms.*.a`, A: cty.StringVal("x"), B: cty.StringVal("y"), Nest: func(v cty.Value) map[string]cty.Value {
+		return map[string]cty.Value{"ms": cty.TupleVal([]cty.Value{cty.MapVal(map[string]cty.Value{"a": v}).Mark(secretMark)})}
+	}},
+	{Name: "map-attr-in-for", Src: `[for m in ms: m.a]`, A: cty.StringVal("x"), B: cty.StringVal("y"), Nest: func(v cty.Value) map[string]cty.Value {
+		return map[string]cty.Value{"ms": cty.ListVal([]cty.Value{cty.MapVal(map[string]cty.Value{"a": v}).Mark(secretMark)})}
+	}},
+	{Name: "map-attr-in-template", Src: `"v=${k.a}"`, A: cty.MapVal(map[string]cty.Value{"a": cty.StringVal("x")}), B: cty.MapVal(map[string]cty.Value{"a": cty.StringVal("y")})},
+	{Name: "list-legacy-index", Src: `k.0`, A: cty.ListVal([]cty.Value{cty.StringVal("x")}), B: cty.ListVal([]cty.Value{cty.StringVal("y")})},
+	{Name: "tuple-index-access", Src: `k[0]`, A: cty.TupleVal([]cty.Value{cty.StringVal("x")}), B: cty.TupleVal([]cty.Value{cty.StringVal("y")})},
+	{Name: "set-splat", Src: `k[*]`, A: cty.SetVal([]cty.Value{cty.StringVal("x")}), B: cty.SetVal([]cty.Value{cty.StringVal("y")})},
 	{Name: "splat-index-marked-string-key", Src: `deep[*].tags[k]`, A: cty.StringVal("0"), B: cty.StringVal("1"), Vars: map[string]cty.Value{"deep": cty.ListVal([]cty.Value{cty.ObjectVal(map[string]cty.Value{"tags": cty.ListVal([]cty.Value{cty.StringVal("x"), cty.StringVal("y")})})})}},
 }
 
@@ -452,6 +473,14 @@ func c06DirectedCase(c *core.Case, d c06Dir) {
 	v2 := map[string]cty.Value{"k": d.B.Mark(secretMark)}
 	for k, v := range d.Vars {
 		v1[k], v2[k] = v, v
+	}
+	if d.Nest != nil {
+		for k, v := range d.Nest(d.A) {
+			v1[k] = v
+		}
+		for k, v := range d.Nest(d.B) {
+			v2[k] = v
+		}
 	}
 	c.SetInput(fmt.Sprintf("%s with k=%s / k=%s (marked)", d.Src, valStr(d.A), valStr(d.B)))
 	msg, differed, bothOK := c06Judge(p, v1, v2)
